@@ -341,6 +341,22 @@ func runC20(c *Ctx, idx int64) {
 			if !checkAll() {
 				return
 			}
+			// fourth round: the file is opened again with text that is not the file on disk (the
+			// editor restores the unsaved buffer) and nothing is typed: everybody sees that text
+			if r.Bool() {
+				jb.Entries = append(jb.Entries, e)
+				w.render()
+				have := s.Stub.PubCount(u)
+				s.Open(u, w.Texts[b])
+				s.WaitPub(u, have)
+				s.Drain()
+				delete(closed, b)
+				c.Count("fourth_round_after_reopen_with_other_text", 1)
+				mode = strings.Replace(mode, "+after-close-unsaved", "+after-reopen-with-other-text", 1)
+				if !checkAll() {
+					return
+				}
+			}
 		}
 	}
 	if c.Rep.Evaluations%101 == 0 {
